@@ -44,7 +44,13 @@ Others == <<
   <<PrintS(AttrBr(HashE(<< <<NameE("k"), A>> >>), B))>>, <<PrintS(AttrBr(ArrE(<<A>>), B))>>,
   <<IncludeS(StrE("inc"), A, FALSE)>>, <<IncludeS(A, NoE, FALSE)>>, <<PrintS(CallE("block", <<A>>))>>,
   <<SetCap("c", <<PrintS(A)>>), PrintS(Bin("+", NameE("c"), B))>>, <<FilterS(<<"up">>, <<PrintS(A)>>)>>,
-  <<DoS(Bin("..", A, B))>>, <<PrintS(Bin("in", A, Bin("..", IntE(0), B)))>>
+  <<DoS(Bin("..", A, B))>>, <<PrintS(Bin("in", A, Bin("..", IntE(0), B)))>>,
+  (* include / embed with every combination of with-value and only; the target assigns and imports at its top level *)
+  <<IncludeS(StrE("incs"), NoE, TRUE)>>, <<IncludeS(StrE("incs"), A, TRUE)>>,
+  <<EmbedS(StrE("incs"), NoE, TRUE, <<>>)>>, <<EmbedS(StrE("incs"), NoE, FALSE, <<>>)>>, <<EmbedS(StrE("incs"), A, TRUE, <<>>)>>,
+  <<EmbedS(StrE("incs"), A, FALSE, <<[name |-> "eb", body |-> <<SetS("z", B), PrintS(NameE("z"))>>]>>)>>,
+  <<EmbedS(StrE("incs"), NoE, TRUE, <<[name |-> "eb", body |-> <<SetS("z", B), ImportS(StrE("inc"), "mm")>>]>>)>>,
+  <<EmbedS(A, B, TRUE, <<>>)>>
 >>
 NOth == Len(Others)
 OpsCase(j) ==       \* j in 0 .. (NB + NOth) * NO * NO - 1
@@ -79,11 +85,12 @@ Init == GenInit(v_lvl, v_idx)
 Next == GenNext(v_lvl, v_idx, Picked, 64)
 
 IncTpl == <<Text("<"), PrintS(NameE("k")), Text(">")>>
+IncsTpl == <<SetS("q", IntE(1)), ImportS(StrE("inc"), "m"), Text("["), BlockS("eb", <<Text("d")>>), PrintS(NameE("k")), Text("]"), SetCap("c", <<Text("c")>>)>>
 Vecc(j) ==
   IF j < NOps THEN
     LET c == OpsCase(j)
         ctx == ("a" :> c.a) @@ ("b" :> c.b)
-        tpls == ("t" :> c.body) @@ ("inc" :> IncTpl)
+        tpls == ("t" :> c.body) @@ ("inc" :> IncTpl) @@ ("incs" :> IncsTpl)
         pure == IsPure(c.a) /\ IsPure(c.b)
         st == IF pure THEN Execute(tpls, "t", ctx).status ELSE "go"
     IN [id |-> "C02-" \o ToString(j), fam |-> "ops", k |-> "render", env |-> "core", tpls |-> tpls, entry |-> "t", ctx |-> ctx,
